@@ -4,7 +4,9 @@ import seqprop
 from props import _seqplans
 import schedupper
 
-THEOREMS = json.load(open(os.path.join(os.path.dirname(__file__), "_theorems.json")))["C04"]
+THEOREMS = {"C04.v": json.load(open(os.path.join(os.path.dirname(__file__), "_theorems.json")))["C04"],
+            # concurrent half: the whole allocator under every interleaving (machine M2)
+            "Conc.v": ['Conc_quiescent_validate', 'Conc_quiescent_stats', 'Conc_quiescent_stats_with_changes', 'Conc_upper_safe']}
 
 
 def run(ctx):
